@@ -146,7 +146,7 @@ func cmdCheck(args []string) int {
 	eng := &Engine{P: P, opts: Options{MaxDecisions: 600, MaxSteps: 3000000, Verbose: *verbose, Tier: *tier, SolverTimeoutMs: 20000, Cross: true}}
 	if *tier == "thorough" {
 		eng.opts.MaxDecisions = 1500
-		eng.opts.SolverTimeoutMs = 300000
+		eng.opts.SolverTimeoutMs = 60000
 	}
 	gTier = *tier
 
